@@ -153,6 +153,46 @@ func tumbleCase(r *lib.Rng, cf *lib.CaseFile) {
 	addTumble(cf, in, kind, out, note, "constant arguments, one run")
 }
 
+// tumble over a source that already has an event time field of its own (what poll, max_diff_watermark or a
+// nested tumble hand on): two Time columns a and b, the schema's TimeField is a.  With an explicit
+// time_field => DESCRIPTOR(b) the windows are those of column b; without the argument those of column a.
+func tumbleTimedSourceCase(r *lib.Rng, cf *lib.CaseFile, explicit bool) {
+	nfields := 2 + r.Intn(2)
+	a := r.Intn(nfields)
+	b := (a + 1 + r.Intn(nfields-1)) % nfields
+	used := a
+	if explicit {
+		used = b
+	}
+	in := genTumbleInput(r, nfields, used)
+	// the other Time column holds an unrelated instant (another window for every length in use)
+	other := a + b - used
+	for i := range in.script {
+		if !in.script[i].IsWM {
+			vals := in.script[i].Rec.Values
+			t := vals[used].Time
+			vals[other] = octosql.NewTime(t.Add(time.Duration(small(in.length))*time.Duration(3+r.Intn(5)) + time.Duration(1+r.Intn(7))))
+		}
+	}
+	explicitIdx := -1
+	if explicit {
+		explicitIdx = b
+	}
+	kind, out, note := runGuarded(
+		func() (execution.Node, error) {
+			return c18kit.TumbleOverTimedSource(&lib.ScriptSource{Events: in.script}, time.Duration(in.length), time.Duration(in.offset), nfields, []int{a, b}, a, explicitIdx)
+		},
+		func(n execution.Node) ([]lib.Event, error, interface{}) { return lib.RunNode(n) })
+	how := fmt.Sprintf("source schema has TimeField f%d; no time_field argument", a)
+	if explicit {
+		how = fmt.Sprintf("source schema has TimeField f%d; explicit time_field => DESCRIPTOR(f%d)", a, b)
+		cf.Count("tumble_explicit_time_field_over_timed_source")
+	} else {
+		cf.Count("tumble_implicit_time_field")
+	}
+	addTumble(cf, in, kind, out, note, how)
+}
+
 // One materialized tumble node whose window_length and offset are variables of the enclosing record, run
 // several times over different inputs and under different outer records (a correlated subquery, or a
 // source polled again): every run is a case of its own.
@@ -352,10 +392,11 @@ func main() {
 	cf.Side.Rule = "tumble: streams of 0..8 events (times near window boundaries around/before/far from the epoch, zero/NULL/extreme times, watermarks, retractions) x window_length " +
 		"(1 ns..1 week, huge, 0, negative) x offset (0, +-, larger than the length, extreme); range: (start,end) in [-20,20]^2 (all of them at the thorough tier) plus int64 edge pairs; " +
 		"poll: 0..4 rounds of 0..3 rows over a source that fails after the last round, clock read from poll's own watermarks; " +
+		"tumble over a source whose schema has its own TimeField, with an explicit time_field naming another Time column (must win) or none (the source's is used); " +
 		"re-runs: one materialized range / tumble node whose bounds / window_length and offset are variables of the enclosing record, run 2..4 times under different outer records " +
 		"(correlated subquery) and over different inputs, and one poll node run twice — every run is a case compared with the model; " +
 		"non-trivial = tumble with a record and a watermark and a positive length / range with >= 2 values / poll with >= 2 rounds and some rows; distinct by full case text"
-	nt := f.Cases(200, 2000)
+	nt := f.Cases(170, 1700)
 	for i := 0; i < nt; i++ {
 		tumbleCase(rng.Fork(), cf)
 	}
@@ -376,6 +417,9 @@ func main() {
 	}
 	for i, n := 0, f.Cases(30, 300); i < n; i++ {
 		tumbleRerunCase(rng.Fork(), cf)
+	}
+	for i, n := 0, f.Cases(40, 400); i < n; i++ {
+		tumbleTimedSourceCase(rng.Fork(), cf, i%4 != 3) // 3 of 4 with an explicit time_field, 1 of 4 with the implicit one
 	}
 	for _, p := range [][2]int64{{math.MaxInt64 - 3, math.MaxInt64}, {math.MinInt64, math.MinInt64 + 3}, {5, math.MinInt64}, {math.MaxInt64, math.MinInt64},
 		{math.MaxInt64, math.MaxInt64}, {math.MaxInt64 - 1, math.MaxInt64}, {0, 0}, {-1, 1}, {math.MinInt64, math.MinInt64}} {
